@@ -120,14 +120,18 @@ def exportable_flag():
 
     def gen(repo):
         obls, funcs, paths = [], [], 0
-        for present in (False, True):
-            r = scn.Run(repo, SIG, 'exportable', label + ('[subpacket present]' if present else '[no subpacket]'))
+        for present in (False, True, 'twice'):
+            # 'twice': the signed (hashed) subpacket and a second one in the unhashed area, which anybody can append without breaking the
+            # signature: the signed statement decides (the container lists hashed subpackets before unhashed ones)
+            r = scn.Run(repo, SIG, 'exportable', label + ('[hashed subpacket and an unhashed one appended]' if present == 'twice' else '[subpacket present]' if present else '[no subpacket]'))
             ex, st = r.ex, r.st
             me = E.VObj(SIG, 'sig')
             r.set('sig', '_signature', E.VObj('pgpy.packet.packets.SignatureV4', 'spkt'))
             r.set('spkt', 'subpackets', E.VObj('pgpy.packet.fields.SubPackets', 'subp'))
             flag = z3.Bool('exportable_subpacket_value')
+            flag_unhashed = z3.Bool('value_of_the_unhashed_subpacket_appended_later')
             sp = E.VObj('pgpy.packet.subpackets.signature.ExportableCertification', 'ec')
+            sp_u = E.VObj('pgpy.packet.subpackets.signature.ExportableCertification', 'ec-unhashed')
             # the signature may carry any other subpackets - e.g. a revocation key marked sensitive -, none of which decides exportability
             has_rk, rk_sensitive = z3.Bool('has_a_revocation_key_subpacket'), z3.Bool('revocation_key_is_marked_sensitive')
             RK = 'pgpy.packet.subpackets.signature.RevocationKey'
@@ -145,8 +149,10 @@ def exportable_flag():
 
             def getitem(ex, st, o, a):
                 name = a[0].s if isinstance(a[0], E.VStr) else None
-                if name in ('ExportableCertification', 'h_ExportableCertification'):
+                if name == 'h_ExportableCertification':
                     return [(st, ex.new_list(st, [sp] if present else []))]
+                if name == 'ExportableCertification':
+                    return [(st, ex.new_list(st, [sp, sp_u] if present == 'twice' else [sp] if present else []))]
                 if name in ('RevocationKey', 'h_RevocationKey'):
                     s2 = st.clone()
                     st.pc.append(has_rk)
@@ -155,13 +161,14 @@ def exportable_flag():
                 return [(st, ex.new_list(st, []))]
             r.hook('pgpy.packet.fields.SubPackets', '__contains__', scn.method_hook(contains))
             r.hook('pgpy.packet.fields.SubPackets', '__getitem__', scn.method_hook(getitem))
-            r.hook('pgpy.packet.subpackets.signature.Boolean', '__bool__', scn.mconst(E.VBool(flag)))
+            r.hook('pgpy.packet.subpackets.signature.Boolean', '__bool__', scn.method_hook(lambda ex, st, o, a: [(st, E.VBool(flag_unhashed if o.ref == 'ec-unhashed' else flag))]))
             for pi, (s, v) in enumerate(r.call(me, [])):
                 paths += 1
                 if isinstance(v, E.Raise):
                     r.oblige(s, 'safety(%s)/p%d' % (v.exc.split(':')[0], pi), z3.BoolVal(False), v.where)
                     continue
-                r.oblige(s, 'exportable-unless-marked-otherwise/p%d' % pi, ex.truth(v, s) == (flag if present else z3.BoolVal(True)))
+                r.oblige(s, 'exportable-unless-marked-otherwise%s/p%d' % ('(the-signed-subpacket-decides)' if present == 'twice' else '', pi),
+                         ex.truth(v, s) == (flag if present else z3.BoolVal(True)))
             res = r.result()
             obls += res['obligations']
             funcs = res['funcs']
